@@ -186,13 +186,14 @@ def build_case(run, spec):
     backend, layout = spec['backend'], spec.get('layout')
     force = spec.get('force', {})
     cov_class = force.get('cov_class') or rng.choices(
-        ['full', 'bbox_same', 'bbox_other', 'poly_same', 'poly_other', 'edge_coarse', 'straddle_coarse'],
-        [36, 18, 11, 12, 10, 8, 5])[0]
+        ['full', 'bbox_same', 'bbox_other', 'poly_same', 'poly_other', 'edge_coarse', 'straddle_coarse',
+         'poly_whole_grid'],
+        [36, 18, 11, 12, 10, 8, 5, 6])[0]
     full = cov_class == 'full'
     # layouts without a level directory fall back to (or, for quadkey, should fall back to) a walk over every
     # tile of the selected levels: keep those levels shallow
     full_walk = full and backend == 'file' and layout in ('reverse_tms', 'quadkey')
-    if full_walk:
+    if full_walk or cov_class == 'poly_whole_grid':
         gname = 'sm'
     elif layout == 'quadkey':
         gname = rng.choice(POW2_GRIDS)
@@ -292,6 +293,12 @@ def build_case(run, spec):
             coarse = {'zc': zc, 'width_px': wpx}
     if gname in POW2_GRIDS:      # stay inside the world: coordinates beyond it are not valid input
         region = [max(region[0], gb[0]), max(region[1], gb[1]), min(region[2], gb[2]), min(region[3], gb[3])]
+    if cov_class == 'poly_whole_grid':
+        # a polygon whose bounding box is (a little more than) the whole grid but which leaves part of it out
+        gx, gy = (gb[2] - gb[0]) * 0.01, (gb[3] - gb[1]) * 0.01
+        region = [gb[0] - gx, gb[1] - gy, gb[2] + gx, gb[3] + gy]
+        if gname in POW2_GRIDS:
+            region = list(gb)
     region = [float(v) for v in region]
 
     # coverage configuration
@@ -313,7 +320,7 @@ def build_case(run, spec):
         else:
             x0, y0, x1, y1 = cb
             ww, hh = x1 - x0, y1 - y0
-            pshape = rng.choice(['tri', 'quad', 'L', 'hole'])
+            pshape = rng.choice(['tri', 'quad', 'L', 'hole']) if cov_class != 'poly_whole_grid' else rng.choice(['L', 'hole'])
             if pshape == 'tri':
                 pts = [(x0, y0), (x1, y0 + hh * rng.uniform(0, 0.5)), (x0 + ww * rng.uniform(0.2, 0.8), y1)]
                 rings = [pts]
